@@ -294,7 +294,11 @@ fn compare_mir(rep: &mut Report, drv: &mut Driver, src: &str, sx: &str, ident: &
     let ans = drv.ask(&format!("c08 mir {}", hex(sx)));
     let per_fn: Vec<&str> = ans.split(" || ").collect();
     if per_fn.iter().all(|a| a.trim() == "outside") {
+        // the lowering model is defined on every program that avoids three ill-typed shapes
+        // (`lowerProg_defined`); a program the compiler accepted has none of them, so the hypothesis
+        // `lowerProg fns = some P` of `lowerS_trace_partial` must hold for every generated program
         rep.hist("mir-model-vs-real", "outside the modelled fragment");
+        rep.mismatch("a program the compiler accepts is outside the fragment of the lowering model (`lowerProg` undefined: the hypothesis of lowerS_trace_partial is not met)", json!({"case": ident, "src": src}));
         return false;
     }
     let real = match catch_unwind(AssertUnwindSafe(|| real_raw(src))) {
@@ -312,6 +316,7 @@ fn compare_mir(rep: &mut Report, drv: &mut Driver, src: &str, sx: &str, ident: &
         let name = if i == last { "main".to_string() } else { format!("f{i}") };
         if a.trim() == "outside" {
             rep.hist("mir-model-vs-real", "function outside the modelled fragment");
+            rep.mismatch("a function the compiler accepts is outside the fragment of the lowering model (`lowerFn` undefined)", json!({"case": ident, "src": src, "function": name}));
             continue;
         }
         let model = match model_raw(a.trim()) {
